@@ -496,10 +496,14 @@ func propsOfMismatch0(m Mismatch, ev map[string]any) []string {
 		case m.Info == "mfail":
 			return []string{"C17"}
 		case m.St == "equal":
+			ps := []string{"C01"}
 			if m.Got == "updated" || m.Got == "added" {
-				return []string{"C01", "C04"}
+				ps = append(ps, "C04")
 			}
-			return []string{"C01"}
+			if docProp() != "C01" { // same document, other presentation / form: canonical storage
+				ps = append(ps, docProp())
+			}
+			return ps
 		case m.St == "different":
 			if m.Exp == "failed" && m.Got == "passed" {
 				return []string{"C02"}
@@ -521,6 +525,8 @@ func propsOfMismatch0(m Mismatch, ev map[string]any) []string {
 		return []string{"C17"}
 	case "format.unstable":
 		return []string{docProp()}
+	case "json.lossy":
+		return []string{"C14"}
 	case "nowrite":
 		ps := []string{}
 		switch {
